@@ -206,6 +206,12 @@ fn generate(quick: bool) -> (Vec<Case>, u64) {
             };
             stmts.push((format!("{p} {ret} UNION {wv} RETURN 1 AS x").replace("  ", " "), format!("union|{p}|{wname}")));
             stmts.push((format!("CALL {{ {p} {wv} }}"), format!("call_subquery_after|{p}|{wname}")));
+            // a line comment between the read prefix and the write: the newline that ends the comment
+            // decides what is commented out, so a checker that folds whitespace sees only the prefix
+            stmts.push((format!("{p} // every one of them\n{wv}"), format!("after_line_comment|{p}|{wname}")));
+            stmts.push((format!("{p} // every one of them\n{wv}\nRETURN 1"), format!("after_line_comment_return|{p}|{wname}")));
+            stmts.push((format!("{p} /* note */ {wv}"), format!("after_block_comment|{p}|{wname}")));
+            stmts.push((format!("// {p} RETURN 1\n{p}\n{wv}"), format!("leading_line_comment|{p}|{wname}")));
             // first branch of a UNION / UNION ALL (the branch the engine routes by), read branch after it
             stmts.push((format!("{p} {wv} UNION MATCH (m) RETURN m"), format!("union_first|{p}|{wname}")));
             stmts.push((format!("{p} {wv} RETURN 1 AS x UNION ALL RETURN 1 AS x"), format!("union_all_first|{p}|{wname}")));
@@ -749,7 +755,7 @@ async fn run_cases(ctx: &Ctx, cases: Vec<Case>, tuples: u64, verbose: bool) {
     ctx.cov("returned_violating_statements", violating_statements);
     ctx.cov("responses_yielding_violating_statement", violating_cases);
     ctx.cov("returned_by_leading_keyword", json!(by_lead));
-    ctx.cov("generator", json!({"read_prefixes": read_prefixes().len(), "write_clauses": write_clauses().len(), "positions": "alone, alone+RETURN, CALL{..}, after, after+RETURN, after WITH, before, UNION branch (second, first, first of UNION ALL, middle of three), CALL{prefix write}", "separators": if ctx.quick() { 1 } else { 2 }, "wrappings": wrappings(ctx.quick()), "keyword_case_variants": if ctx.quick() { 2 } else { 3 }}));
+    ctx.cov("generator", json!({"read_prefixes": read_prefixes().len(), "write_clauses": write_clauses().len(), "positions": "alone, alone+RETURN, CALL{..}, after, after+RETURN, after WITH, before, after a // line comment or /* */ comment, UNION branch (second, first, first of UNION ALL, middle of three), CALL{prefix write}", "separators": if ctx.quick() { 1 } else { 2 }, "wrappings": wrappings(ctx.quick()), "keyword_case_variants": if ctx.quick() { 2 } else { 3 }}));
     for i in [0usize, n / 3, n / 2, n - 1] {
         ctx.sample(json!({"case": cases[i].desc, "model_response": cases[i].text, "endpoint": format!("{:?}", answers[i].as_ref().unwrap())}));
     }
